@@ -124,7 +124,8 @@ C13_K2 = {"k": 2, "kmask0": 2, "kmask1": 63, "maxtok": 1, "tokmask": 1, "shapema
 C13_K2B = {"k": 2, "kmask0": 61, "kmask1": 2, "maxtok": 1, "tokmask": 1, "shapemask": 166, "nvals": 2, "optmask": 1}
 C13_K1_T3 = {"k": 1, "kmask0": 2, "maxtok": 3, "tokmask": 15, "shapemask": ALLSHAPES, "nvals": 2, "optmask": 1}
 C13_K2_DEEP = {"k": 2, "kmask0": 63, "kmask1": 63, "maxtok": 2, "tokmask": 1, "shapemask": 24, "nvals": 2, "optmask": 1}
-R["C13"] = {"harnesses": [H("H_Apply", [C13_K1, C13_K2, C13_K2B], [C13_K1_T3, C13_K2, C13_K2B, C13_K2_DEEP], ["apply/end", "apply/ref-fails"],
+C13_K1_ALL = {"k": 1, "kmask0": 63, "maxtok": 2, "tokmask": 3, "shapemask": ALLSHAPES, "nvals": 2, "optmask": 1}
+R["C13"] = {"harnesses": [H("H_Apply", [C13_K1, C13_K1_ALL, C13_K2, C13_K2B], [C13_K1_T3, C13_K2, C13_K2B, C13_K2_DEEP], ["apply/end", "apply/ref-fails"],
     AP_BOUND + "; AllowMissingPathOnRemove on/off; the reference skips exactly the removes whose target or ancestor is absent"),
     H("H_AllowMissing_Meta", [{"k": 2, "maxtok": 1, "tokmask": 1, "shapemask": 166, "nvals": 2}], [{"k": 2, "maxtok": 2, "tokmask": 1, "shapemask": 190, "nvals": 2}, {"k": 3, "maxtok": 1, "tokmask": 1, "shapemask": 34, "nvals": 2}], ["meta/end", "meta/skipped-some"],
       "metamorphic, both sides real code: patch P with the option on vs P minus the removes the reference classifies as skipped with the option off")],
@@ -148,8 +149,9 @@ R["C05"] = {"harnesses": apply_harnesses() + [H("H_Merge", MERGE_Q, None, ["merg
     "anchors": AP_ANCHORS + ["(*github.com/evanphx/json-patch/v5.partialDoc).TrustMarshalJSON", "v5.mergeDocs"],
     "assumptions": ["order among members that MergePatch adds is unspecified (Go map iteration) and not asserted"],
     "outside_bound": AP_OUTSIDE}
+C08_K1_OPTS = {"k": 1, "kmask0": 63, "maxtok": 2, "tokmask": 1, "shapemask": ALLSHAPES, "nvals": 2, "optmask": 1}
 C08_OPTS = {"k": 2, "kmask0": 63, "kmask1": 63, "maxtok": 1, "tokmask": 1, "shapemask": 8194, "nvals": 2, "optmask": 15}
-R["C08"] = {"harnesses": apply_harnesses(extra_quick=[C12_K1, C13_K1], extra_thorough=[C08_OPTS, C12_K2, C13_K2]) ,
+R["C08"] = {"harnesses": apply_harnesses(extra_quick=[C12_K1, C08_K1_OPTS], extra_thorough=[C08_K1_OPTS, C08_OPTS, C12_K2, C13_K2]) ,
     "anchors": AP_ANCHORS + ["(github.com/evanphx/json-patch/v5.Patch).ApplyIndentWithOptions"],
     "assumptions": ["error classes come from the reference evaluator: testFailed only when a comparison was made and came out unequal; missing for absent members and unreachable parents; copyLimit from the running escaped total"],
     "outside_bound": AP_OUTSIDE}
